@@ -276,6 +276,10 @@ def plan(pid, tr, sd):
                 for form in ("ndarray", "ndarray_other", "objarray"):
                     jobs.append((pid, "c01", label, t, gens[0], dict(pls[(i + 2) % len(pls)], form=form)))
                 jobs.append((pid, "c01", label, t, dict(variant=0, dim=3), dict(pls[i % len(pls)], form="ndarray")))
+            if t[0] == "struct":
+                jobs.append((pid, "c01", label, t, gens[0], dict(pls[i % 2], form="kwargs")))
+                if any(ft[0] == "scalar" for _, ft in t[2]):
+                    jobs.append((pid, "c01", label, t, gens[0], dict(pls[(i + 1) % 2], form="omit")))
             jobs.append((pid, "c01x", label, t, gens[0], dict(pls[i % 2])))
             if wmode.has_string(t):
                 jobs.append((pid, "c01cap", label, t, gens[0], dict(pls[i % 2])))
